@@ -35,7 +35,7 @@ def EntryOK (L : Node → List RAd) (x : Node) (e : Entry) : Prop :=
 
 structure Inv (L : Node → List RAd) (s : Net) : Prop where
   locals : ∀ x, (s.nodes x).locals = L x
-  flight : ∀ f, f ∈ s.flight → AdvOK L f.adv
+  flight : ∀ f, f ∈ s.flight → f.adv.wd = false → AdvOK L f.adv
   entries : ∀ x e, e ∈ (s.nodes x).entries → EntryOK L x e
 
 theorem inv_init (n mh : Nat) (L : Node → List RAd) : Inv L (init n mh L) where
@@ -58,7 +58,10 @@ theorem inv_step {L : Node → List RAd} {s : Net} {op : Op} (hI : Inv L s)
     intro f hf
     cases flight_step hf with
     | old h => exact hI.flight f h
+    | wdr hop ha hcidr hd hadv =>
+      intro hw; rw [hadv] at hw; simp [withdrawAdv] at hw
     | ann hop ha hd hadv =>
+      intro _
       rw [hadv]
       refine ⟨by simp [announceAdv], ?_⟩
       intro r hr
@@ -68,22 +71,28 @@ theorem inv_step {L : Node → List RAd} {s : Net} {op : Op} (hI : Inv L s)
         rw [← hI.locals]; exact hr
       · subst hr
         exact ⟨0, Or.inl ⟨rfl, rfl, rfl⟩, by simp [announceAdv, inc16]⟩
-    | fwd a m hm hl ha hb hd hne hns hself hacc hlim hadv =>
+    | fwd a m hm hl ha hb hd hne hns hself hseen hsb hlim hadv =>
+      intro hw
+      have hw' : m.wd = false := by rw [hadv, fwdAdv_wd] at hw; exact hw
       rw [hadv]
-      obtain ⟨ho, hr⟩ := hI.flight _ hm
-      refine ⟨by simp only [fwdAdv]; exact List.mem_cons_of_mem _ ho, ?_⟩
+      obtain ⟨ho, hr⟩ := hI.flight _ hm hw'
+      refine ⟨by rw [fwdAdv_origin, fwdAdv_path hw']; exact List.mem_cons_of_mem _ ho, ?_⟩
       intro r' hr'
-      simp only [fwdAdv, List.mem_map] at hr'
+      rw [fwdAdv_routes hw'] at hr'
+      simp only [List.mem_map] at hr'
       rcases hr' with ⟨r, hrm, rfl⟩
       obtain ⟨b, hb1, hb2⟩ := hr r hrm
-      exact ⟨b, hb1, by simpa [fwdAdv] using inc16_step hb2⟩
+      refine ⟨b, by rw [fwdAdv_origin]; exact hb1, ?_⟩
+      rw [fwdAdv_path hw']
+      simpa using inc16_step hb2
     | rep ord hop ha hb hl hadv =>
+      intro _
       exact hrep _ _ _ hop _ hadv
   entries := by
     intro x e he
-    rcases entries_step he with h | ⟨a, m, hm, hl, ha, hx, hacc, hp, r, hr, rfl⟩
+    rcases entries_step he with h | ⟨a, m, hm, hl, ha, hx, hwd, hacc, hp, r, hr, rfl⟩
     · exact hI.entries x e h
-    · obtain ⟨ho, hrs⟩ := hI.flight _ hm
+    · obtain ⟨ho, hrs⟩ := hI.flight _ hm hwd
       have hne : m.path ≠ [] := by intro h0; rw [h0] at ho; cases ho
       refine ⟨fun h0 => absurd h0 hne, fun _ => ⟨?_, ?_⟩⟩
       · intro heq
